@@ -41,6 +41,9 @@ def run(ck, facts):
     ck.rule("R3", "C++ -> C argument order is self -> params -> write; no reordering")
     ck.rule("R4", "result/option conversions do not cross arms (ok branch reads .ok, else branch reads .err / nullopt)")
     ck.rule("R5", "runtime.hpp: the std::string writer publishes cap = length() after resize; the bundled span copies data and size in every copy operation; c_run_callback/c_delete cast the same function_t")
+    ck.rule("R6", "runtime.hpp/diplomat::result: every accessor touches only its own arm (ok/is_ok/set_ok <-> Ok<T>, err/is_err/set_err <-> Err<E>), in both the value and the reference overloads; "
+                  "comparison operators derived from a comparator compare its result with 0 using the operator's own relation; the bundled span default-constructs empty like std::span; "
+                  "the enum wrapper's enumerators carry the stored discriminants (shares C11.R1)")
     ck.not_decided += ["value preservation of each of the ~40 conversion expressions for all values", "-std=c++17 vs -std=c++20 compilation"]
 
     g = tool.fn("cpp::ty::TyGenContext::gen_method_info")
@@ -153,3 +156,59 @@ def run(ck, facts):
             ck.expect(not missing, "R5", "cpp/runtime/span-%s-copies-all-members" % kind, "", "span %s does not copy %s from its argument: a reassigned span keeps a stale %s" % (kind, missing, missing), "tool/templates/cpp/runtime.hpp.jinja")
     run_cb = re.search(r"static\s+Ret\s+c_run_callback\s*\(\s*const\s+void\s*\*\s*cb[^)]*\)\s*\{(.*?)\}", rth, re.S)
     ck.expect(bool(run_cb) and "reinterpret_cast<const function_t *>(cb)" in run_cb.group(1), "R5", "cpp/runtime/c_run_callback", "", "c_run_callback no longer invokes the std::function stored behind the data pointer", "tool/templates/cpp/runtime.hpp.jinja")
+
+
+    # ---------------- R6 runtime.hpp result arms, comparison operators, span default, enum wrapper
+    rth = C.read_repo("tool/templates/cpp/runtime.hpp.jinja")
+    W = "tool/templates/cpp/runtime.hpp.jinja"
+
+    def brace_body(text, start):
+        depth = 0
+        i = text.index("{", start)
+        j = i
+        while j < len(text):
+            if text[j] == "{":
+                depth += 1
+            elif text[j] == "}":
+                depth -= 1
+                if depth == 0:
+                    return text[i + 1:j], j
+            j += 1
+        return None, None
+    mcls = re.search(r"class\s+result\s*\{", rth)
+    nacc = 0
+    if not mcls:
+        ck.bad("R6", "result/class", "class diplomat::result not found", W)
+    else:
+        cls, _ = brace_body(rth, mcls.start())
+        cls = re.sub(r"//[^\n]*", "", cls)
+        for mm in re.finditer(r"\b(is_ok|is_err|ok|err|set_ok|set_err)\s*\(([^)]*)\)\s*(?:const)?\s*(?:&&)?\s*\{", cls):
+            name = mm.group(1)
+            body_, _ = brace_body(cls, mm.end() - 1)
+            if body_ is None:
+                continue
+            arm = "ok" if "ok" in name else "err"
+            toks_ = set(re.findall(r"\b(is_ok|is_err)\b|\b(Ok|Err)\s*<", body_))
+            flat_ = {a or b for a, b in toks_}
+            own = {"ok": {"is_ok", "Ok"}, "err": {"is_err", "Err"}}[arm]
+            nacc += 1
+            key = "result::%s#%d" % (name, sum(1 for i in ck.instances if i["rule"] == "R6" and i["key"].startswith("result::%s#" % name)))
+            ck.expect(bool(flat_) and flat_ <= own, "R6", key, "touches %s" % sorted(flat_),
+                      "diplomat::result::%s() refers to %s: an accessor for the %s arm tests or reads the other arm (is_ok()/ok() disagree; the other arm throws bad_variant_access)" % (name, sorted(flat_), arm), W)
+        if nacc < 8:
+            ck.bad("R6", "result/accessor-floor", "only %d result accessors found (8 counted: is_ok, is_err, ok x2, err x2, set_ok, set_err)" % nacc, W)
+    # comparison operators
+    mi = tmpl.flat_file("cpp/method_impl.h.jinja", resolve_includes=False)
+    ops = re.findall(r"operator\s*(==|!=|<=|>=|<|>)\s*\(\s*const[^)]*\)\s*const\s*\{\s*return\s+this->⟦\s*m\.method_name\s*⟧\(other\)\s*(==|!=|<=|>=|<|>)\s*0\s*;", mi)
+    ck.expect(len(ops) == 6 and all(a == b for a, b in ops) and len({a for a, _ in ops}) == 6, "R6", "cpp/method_impl/comparison-operators", str(ops),
+              "the six comparison operators are not each `cmp(other) <same relation> 0`: %s" % ops, "tool/templates/cpp/method_impl.h.jinja")
+    # bundled span: default state is the empty span (std::span semantics under -std=c++20)
+    msp = re.search(r"constexpr\s+span\s*\(\s*T\s*\*\s*data\s*=\s*nullptr\s*,\s*size_t\s+size\s*=\s*(.*?)\)\s*:\s*data_\s*\(\s*data\s*\)", rth, re.S)
+    dflt = msp.group(1).strip() if msp else None
+    ok_sp = dflt is not None and re.sub(r"\s+", "", dflt) in ("0", "(Extent==dynamic_extent?0:Extent)", "Extent==dynamic_extent?0:Extent")
+    ck.expect(ok_sp, "R6", "span/default-size", str(dflt), "the bundled C++17 span's default size is `%s`: a default-constructed span must have size() == 0 like std::span "
+              "(with Extent = dynamic_extent = SIZE_MAX it claims SIZE_MAX elements at nullptr)" % dflt, W)
+    # enum wrapper
+    import c11
+    sub = C.SubCheck(ck, "R6", "", ["R1"], key_re=r"^cpp/")
+    c11.run(sub, facts)
